@@ -333,7 +333,7 @@ def correspond_cache(res, drv, case):
         res.disagree(f"{form} cache flags (enumerated, objective, constraints) after the history", impl_flags, fl[:3])
     mg = MU.parse_graph(MU.Toks(parts[k + 1].split()))
     g = VU.graph_of(o)
-    if (g["nodes"], sorted(g["arcs"])) != (mg["nodes"], sorted(mg["arcs"])):
+    if VU.canon_graph(g) != VU.canon_graph(mg):
         res.disagree(f"{form} graph after the history", [a for a in g["arcs"] if a not in mg["arcs"]][:3], [a for a in mg["arcs"] if a not in g["arcs"]][:3])
     msol = parts[-1].split()
     isol = None if o.feasible_solution is None else [F(v) for v in np.asarray(o.feasible_solution).ravel()]
@@ -402,7 +402,7 @@ def correspond_path_flags(res, drv, case):
                 nn = len(o.route_costs)
                 x = [int(round(float(v))) for v in np.asarray(sol).ravel()] if sol is not None and rnd.random() < 0.7 else [rnd.choice([0, 1]) for _ in range(nn)]
                 ops.append(f"dec {len(x)} " + " ".join(str(v) for v in x))
-                out = ("routes", [[str(t) for t in r] for r in o.get_routes(np.array(x, dtype=float))])
+                out = ("routes", [[str(VU.dummy_free(t)) for t in r] for r in o.get_routes(np.array(x, dtype=float))])
             elif kind == "chk":
                 ops.append("chk " + route_tok(op[1]))
                 f_, c_, _v = o.check_route(list(op[1]))
@@ -487,7 +487,7 @@ def correspond_path_flags(res, drv, case):
                 res.disagree(what, out[1:], tk[1:])
         elif out[0] == "routes":
             t0 = MU.Toks(tk[1:])
-            mr = t0.lst(lambda: t0.lst(t0.tok))
+            mr = [[str(VU.dummy_free(t)) for t in r] for r in t0.lst(lambda: t0.lst(t0.tok))]
             if mr != out[1]:
                 res.disagree(what, out[1], mr)
         elif out[0] == "chk":
@@ -503,7 +503,7 @@ def correspond_path_flags(res, drv, case):
     k = next(i for i, p_ in enumerate(parts) if p_.startswith("final "))
     mg = MU.parse_graph(MU.Toks(parts[k][6:].split()))
     g = VU.graph_of(o)
-    if (g["nodes"], sorted(g["arcs"])) != (mg["nodes"], sorted(mg["arcs"])):
+    if VU.canon_graph(g) != VU.canon_graph(mg):
         res.disagree("path object machine: graph after the history", [a for a in g["arcs"] if a not in mg["arcs"]][:3], [a for a in mg["arcs"] if a not in g["arcs"]][:3])
     tr = MU.Toks(parts[k + 1].split())
     mroutes = tr.lst(lambda: tr.lst(tr.nat))
@@ -713,7 +713,9 @@ def correspond_flags(res, drv, case):
                     mR = [[Fraction(0)] * side for _ in range(side)]
                 mA = _dense(tri, rows, cols)
                 iA = out[1] if out[1] else []
-                if mb != out[2] or (mA or []) != iA or mR != out[3] or ((rows, cols) != out[4] and len(out[2]) > 0):
+                same_lin = (mb == out[2] and (mA or []) == iA) or \
+                    (len(mb) == len(out[2]) and len(mA or []) == len(iA) == len(mb) and VU.canon_rows(mA or [], mb) == VU.canon_rows(iA, out[2]))
+                if not same_lin or mR != out[3] or ((rows, cols) != out[4] and len(out[2]) > 0):
                     res.disagree(what, (out[2], out[4]), (mb, (rows, cols)))
         elif out[0] == "routes":
             t0 = MU.Toks(tk[1:])
@@ -731,7 +733,7 @@ def correspond_flags(res, drv, case):
     k = next(i for i, p in enumerate(parts) if p.startswith("final "))
     mg = MU.parse_graph(MU.Toks(parts[k][6:].split()))
     g = VU.graph_of(o)
-    if (g["nodes"], sorted(g["arcs"])) != (mg["nodes"], sorted(mg["arcs"])):
+    if VU.canon_graph(g) != VU.canon_graph(mg):
         res.disagree(f"{form} flag machine: graph after the history", [a for a in g["arcs"] if a not in mg["arcs"]][:3], [a for a in mg["arcs"] if a not in g["arcs"]][:3])
     if form == "seq":
         tv = parts[k + 1].split()
